@@ -84,6 +84,7 @@ def check_universe(universe: str, rep: core.Report):
         nwalks = 16000
     complete = len(chosen) == len(paths)
     seen = set()
+    cov: Dict[str, int] = {}
     nhist = ntriples = skipped = 0
     sample = None
     batches = core.chunked(chosen, max(1, len(chosen) // 1500)) if len(chosen) > 1500 else [chosen]
@@ -113,6 +114,8 @@ def check_universe(universe: str, rep: core.Report):
             if v == '':
                 rep.traces_ok += 1
                 call = json.loads(k[1])
+                kk = '%s -> %s' % (call['op'], json.loads(k[2])['out'])
+                cov[kk] = cov.get(kk, 0) + 1
                 if json.loads(k[2])['out'] != 'ok' or call['op'] != 'rename':
                     rep.mark_nontrivial([universe, k])
             elif v == 'out-of-domain':
@@ -127,6 +130,13 @@ def check_universe(universe: str, rep: core.Report):
             k = keys[len(keys) // 2]
             sample = {'universe': universe, 'call': json.loads(k[1]), 'post': json.loads(k[2])}
     rep.evaluations += nhist
+    # vacuity: every kind of call of the universe must have been observed succeeding, and every kind that the
+    # specification can refuse must have been observed refused
+    kinds = {o['op'] for o in uni['ops']}
+    never = sorted(k for k in kinds if not any(x.startswith(k + ' -> ') for x in cov))
+    if never:
+        raise core.Machinery('universe %s: calls never exercised: %s' % (universe, never))
+    rep.notes.setdefault('accepted_steps_by_call_and_outcome', {})[universe] = dict(sorted(cov.items()))
     rep.notes.setdefault('per_universe', {})[universe] = {
         'reachable_states': res.distinct, 'graph_transitions': res.generated, 'calls': nops,
         'states_replayed_with_every_call': len(chosen), 'every_state_replayed': complete,
